@@ -58,7 +58,7 @@ func callIntrinsic(fr *frame, fn *ssa.Function, args []value) (value, bool) {
 	tb := x.tb
 	if x.spec > 0 {
 		switch name {
-		case "zzvInt", "zzvIntIn", "zzvBool", "zzvChoice", "zzvFloat", "zzvFloatIn", "zzvString", "zzvByteString", "zzvPrintable", "zzvWord",
+		case "zzvInt", "zzvIntIn", "zzvBool", "zzvChoice", "zzvFloat", "zzvFloatIn", "zzvString", "zzvBlob", "zzvByteString", "zzvPrintable", "zzvWord",
 			"zzvAssume", "zzvKnown", "zzvKnownEnd", "zzvFreeze", "zzvUnfreeze", "zzvFloatMag", "zzvFloatRel", "zzvTokenDecoder", "zzvFill", "zzvAssertSame", "zzvAssertDisjoint", "zzvBodyChildren":
 			panic(specAbort{"intrinsic " + name + " in a speculative arm"})
 		}
@@ -88,6 +88,10 @@ func callIntrinsic(fr *frame, fn *ssa.Function, args []value) (value, bool) {
 		x.assume(tb.And(tb.Le(x.term(args[0]), s.t), tb.Le(s.t, x.term(args[1]))))
 		return s, true
 	case "zzvString":
+		return x.nondet("string", types.String, smt.Str), true
+	case "zzvBlob":
+		// arbitrary content; the native twin returns 256 KiB of incompressible bytes instead of
+		// the model's value, so that a write of it passes the archive writer's 4 KiB buffer
 		return x.nondet("string", types.String, smt.Str), true
 	case "zzvPrintable":
 		// a symbolic string of at most n characters out of tab, newline and printable ASCII
@@ -254,7 +258,7 @@ func callIntrinsic(fr *frame, fn *ssa.Function, args []value) (value, bool) {
 		k := int(asInt64(x.concretize(args[0], "fault kind")))
 		w := x.world()
 		w.faultKind = k
-		return [...]string{"/zzv/ok/out.docx", "/zzv/notadir/x/out.docx", "/zzv/isadir", "/dev/full"}[k], true
+		return [...]string{"/zzv/ok/out.docx", "/zzv/notadir/x/out.docx", "/zzv/isadir", "/dev/full", "/zzv/ok/existing.docx"}[k], true
 	case "zzvFaultsInjected":
 		return len(x.world().failed), true
 	case "zzvSameShape":
